@@ -349,6 +349,8 @@ struct Corruption {
     desc: Value,
     /// always kept by the sub-sampling and always met by the external prover
     must: bool,
+    /// not a corruption of the assignment but a run of the ORDINARY API with this input for lookup (table, lookup)
+    api: Option<(usize, usize, u64)>,
 }
 
 struct Built<C: GenericConfig<D, F = F>> {
@@ -673,6 +675,12 @@ fn run_one<C: GenericConfig<D, F = F>>(s: &Scenario, selftest: bool, max_cor: us
         if !expired.iter().all(|x| *x) {
             return None;
         }
+        // padding slots and multiplicities: what the prover itself would set for these inputs (then the plain prover meets no
+        // conflict and the honest algorithm is consistent); if it cannot (an input outside the stored table) the honest ones
+        let mut w2 = w.clone();
+        if let Ok(Ok(())) = guarded(|| plonky2::plonk::prover::set_lookup_wires(prover, common, &mut w2)) {
+            return Some(Assignment::from_partition(&w2));
+        }
         let mut a = Assignment::from_partition(&w);
         for t2 in 0..nstored {
             let lw = &prover.lookup_rows[t2];
@@ -696,11 +704,11 @@ fn run_one<C: GenericConfig<D, F = F>>(s: &Scenario, selftest: bool, max_cor: us
     let in_table = |t: usize, i: u64, o: u64| s.tables[t].pairs.iter().any(|p| p.0 as u64 == i && p.1 as u64 == o);
     let mut cors: Vec<Corruption> = vec![];
     for kind in &s.kinds {
-        if robust_only && !["none", "out_notin", "out_other_entry", "inp_notin", "pair_other_table"].contains(&kind.as_str()) {
+        if robust_only && !["none", "out_notin", "out_other_entry", "inp_notin", "pair_other_table", "api_other_input"].contains(&kind.as_str()) {
             continue;
         }
         match kind.as_str() {
-            "none" => cors.push(Corruption { must: false, kind: kind.clone(), assign: None, edits: vec![], desc: json!({}) }),
+            "none" => cors.push(Corruption { api: None, must: false, kind: kind.clone(), assign: None, edits: vec![], desc: json!({}) }),
             "out_notin" | "out_other_entry" | "inp_notin" | "pair_other_table" | "lu_slot_only" => {
                 for t in 0..nt {
                     let tb = &s.tables[t];
@@ -716,18 +724,18 @@ fn run_one<C: GenericConfig<D, F = F>>(s: &Scenario, selftest: bool, max_cor: us
                             "out_notin" => {
                                 let cands = [outv + 1, 65536 + r.gen_range(0..1u64 << 40), 0, 65535, P - 1];
                                 if let Some(v) = cands.iter().find(|v| !in_table(t, inp, **v)) {
-                                    cors.push(Corruption { must: k == 0, kind: kind.clone(), assign: forge(t, k, inp, *v), edits: vec![], desc: json!({"table": t, "lookup": k, "entry": e, "pair": [inp, v]}) });
+                                    cors.push(Corruption { api: None, must: k == 0, kind: kind.clone(), assign: forge(t, k, inp, *v), edits: vec![], desc: json!({"table": t, "lookup": k, "entry": e, "pair": [inp, v]}) });
                                 }
                             }
                             "out_other_entry" => {
                                 if let Some(p) = tb.pairs.iter().find(|p| !in_table(t, inp, p.1 as u64)) {
-                                    cors.push(Corruption { must: k == 0, kind: kind.clone(), assign: forge(t, k, inp, p.1 as u64), edits: vec![], desc: json!({"table": t, "lookup": k, "entry": e, "pair": [inp, p.1]}) });
+                                    cors.push(Corruption { api: None, must: k == 0, kind: kind.clone(), assign: forge(t, k, inp, p.1 as u64), edits: vec![], desc: json!({"table": t, "lookup": k, "entry": e, "pair": [inp, p.1]}) });
                                 }
                             }
                             "inp_notin" => {
                                 let cands = [inp + 1, 65536 + r.gen_range(0..1u64 << 40), 0, 65535];
                                 if let Some(v) = cands.iter().find(|v| !in_table(t, **v, outv)) {
-                                    cors.push(Corruption { must: false, kind: kind.clone(), assign: forge(t, k, *v, outv), edits: vec![], desc: json!({"table": t, "lookup": k, "entry": e, "pair": [v, outv]}) });
+                                    cors.push(Corruption { api: None, must: false, kind: kind.clone(), assign: forge(t, k, *v, outv), edits: vec![], desc: json!({"table": t, "lookup": k, "entry": e, "pair": [v, outv]}) });
                                 }
                             }
                             "pair_other_table" => {
@@ -756,7 +764,7 @@ fn run_one<C: GenericConfig<D, F = F>>(s: &Scenario, selftest: bool, max_cor: us
                                     }
                                 }
                                 for (t2, p, shared) in picks {
-                                    cors.push(Corruption { must: k == 0, kind: kind.clone(), assign: forge(t, k, p.0 as u64, p.1 as u64), edits: vec![],
+                                    cors.push(Corruption { api: None, must: k == 0, kind: kind.clone(), assign: forge(t, k, p.0 as u64, p.1 as u64), edits: vec![],
                                         desc: json!({"table": t, "lookup": k, "entry": e, "pair": [p.0, p.1], "from_table": t2, "input_shared": shared}) });
                                 }
                             }
@@ -765,7 +773,7 @@ fn run_one<C: GenericConfig<D, F = F>>(s: &Scenario, selftest: bool, max_cor: us
                                 let (row, slot) = lu_cell(t, k);
                                 let v = outv + 1 + r.gen_range(0..1000u64);
                                 if !in_table(t, inp, v) {
-                                    cors.push(Corruption { must: false, kind: kind.clone(), assign: None, edits: vec![(row * nw + 2 * slot + 1, fc(v))],
+                                    cors.push(Corruption { api: None, must: false, kind: kind.clone(), assign: None, edits: vec![(row * nw + 2 * slot + 1, fc(v))],
                                         desc: json!({"table": t, "lookup": k, "row": row, "slot": slot, "pair": [inp, v]}) });
                                 }
                             }
@@ -785,13 +793,37 @@ fn run_one<C: GenericConfig<D, F = F>>(s: &Scenario, selftest: bool, max_cor: us
                         if kind == "table_cell" {
                             let col = 3 * slot + r.gen_range(0..2usize);
                             let x = row * nw + col;
-                            cors.push(Corruption { must: t == 0 && e == 0, kind: kind.clone(), assign: None, edits: vec![(x, a0.values[x] + F::ONE)],
+                            cors.push(Corruption { api: None, must: t == 0 && e == 0, kind: kind.clone(), assign: None, edits: vec![(x, a0.values[x] + F::ONE)],
                                 desc: json!({"table": t, "entry": e, "row": row, "col": col}) });
                         } else {
                             let x = row * nw + 3 * slot + 2;
                             let nv = if a0.values[x] == F::ZERO || r.gen_bool(0.5) { a0.values[x] + F::ONE } else { a0.values[x] - F::ONE };
-                            cors.push(Corruption { must: false, kind: kind.clone(), assign: None, edits: vec![(x, nv)], desc: json!({"table": t, "entry": e, "row": row, "col": 3 * slot + 2}) });
+                            cors.push(Corruption { api: None, must: false, kind: kind.clone(), assign: None, edits: vec![(x, nv)], desc: json!({"table": t, "entry": e, "row": row, "col": 3 * slot + 2}) });
                         }
+                    }
+                }
+            }
+            "api_other_input" => {
+                // the ordinary API, the input of a lookup into table t set to the input of a pair that only ANOTHER table has
+                for t in 0..nt {
+                    let tb = &s.tables[t];
+                    let cands: Vec<(usize, (u16, u16))> = (0..nt)
+                        .filter(|x| *x != t)
+                        .flat_map(|t2| s.tables[t2].pairs.iter().map(move |p| (t2, *p)))
+                        .filter(|(_, p)| !tb.pairs.iter().any(|q| q.0 == p.0))
+                        .collect();
+                    let mut picks = vec![];
+                    if let Some(f) = cands.first() {
+                        picks.push((0usize, *f));
+                        if let Some(l) = cands.last() {
+                            if l.1 != f.1 {
+                                picks.push((tb.lookups.len() - 1, *l));
+                            }
+                        }
+                    }
+                    for (k, (t2, p)) in picks {
+                        cors.push(Corruption { api: Some((t, k, p.0 as u64)), must: true, kind: kind.clone(), assign: None, edits: vec![],
+                            desc: json!({"table": t, "lookup": k, "pair": [p.0, p.1], "from_table": t2}) });
                     }
                 }
             }
@@ -804,7 +836,7 @@ fn run_one<C: GenericConfig<D, F = F>>(s: &Scenario, selftest: bool, max_cor: us
                     if let Some(e) = (0..tb.pairs.len()).rev().find(|e| !used.contains(e) && !(*e == 0 && pad > 0)) {
                         let (row, slot) = lut_cell(t, e);
                         let x = row * nw + 3 * slot + 1;
-                        cors.push(Corruption { must: t == 0, kind: kind.clone(), assign: None, edits: vec![(x, a0.values[x] + F::ONE)],
+                        cors.push(Corruption { api: None, must: t == 0, kind: kind.clone(), assign: None, edits: vec![(x, a0.values[x] + F::ONE)],
                             desc: json!({"table": t, "entry": e, "row": row, "col": 3 * slot + 1, "mult": a0.values[x + 1].to_canonical_u64()}) });
                     }
                 }
@@ -837,7 +869,7 @@ fn run_one<C: GenericConfig<D, F = F>>(s: &Scenario, selftest: bool, max_cor: us
                             edits.push(((prover.lookup_rows[tix[t]].last_lut_gate - 1) * nw + 2 * sl + 1, fc(v)));
                         }
                     }
-                    cors.push(Corruption { must: t == 0, kind: kind.clone(), assign: forge_many(&pins), edits,
+                    cors.push(Corruption { api: None, must: t == 0, kind: kind.clone(), assign: forge_many(&pins), edits,
                         desc: json!({"table": t, "entry": e, "lookups": ks.len(), "pair": [inp, v]}) });
                 }
             }
@@ -851,7 +883,7 @@ fn run_one<C: GenericConfig<D, F = F>>(s: &Scenario, selftest: bool, max_cor: us
                             let slot = s_slots - 1 - r.gen_range(0..tpad);
                             let col = 3 * slot + r.gen_range(0..2usize);
                             let x = w.last_lut_gate * nw + col;
-                            cors.push(Corruption { must: false, kind: kind.clone(), assign: None, edits: vec![(x, a0.values[x] + F::ONE)],
+                            cors.push(Corruption { api: None, must: false, kind: kind.clone(), assign: None, edits: vec![(x, a0.values[x] + F::ONE)],
                                 desc: json!({"table": t, "row": w.last_lut_gate, "col": col}) });
                         }
                     } else {
@@ -862,7 +894,7 @@ fn run_one<C: GenericConfig<D, F = F>>(s: &Scenario, selftest: bool, max_cor: us
                             let (i0, o0) = (tb.pairs[0].0 as u64, tb.pairs[0].1 as u64);
                             let cands = [o0 + 1, 65536 + r.gen_range(0..1u64 << 40)];
                             if let Some(v) = cands.iter().find(|v| !in_table(t, i0, **v)) {
-                                cors.push(Corruption { must: false, kind: kind.clone(), assign: None, edits: vec![(row * nw + 2 * slot + 1, fc(*v))],
+                                cors.push(Corruption { api: None, must: false, kind: kind.clone(), assign: None, edits: vec![(row * nw + 2 * slot + 1, fc(*v))],
                                     desc: json!({"table": t, "row": row, "slot": slot, "pair": [i0, v]}) });
                             }
                         }
@@ -873,7 +905,7 @@ fn run_one<C: GenericConfig<D, F = F>>(s: &Scenario, selftest: bool, max_cor: us
                 for t in 0..nt {
                     let row = prover.lookup_rows[tix[t]].first_lut_gate + 1;
                     for col in [0usize, r.gen_range(0..nw), nw - 1] {
-                        cors.push(Corruption { must: false, kind: kind.clone(), assign: None, edits: vec![(row * nw + col, fc(r.gen_range(1..P)))], desc: json!({"table": t, "row": row, "col": col}) });
+                        cors.push(Corruption { api: None, must: false, kind: kind.clone(), assign: None, edits: vec![(row * nw + col, fc(r.gen_range(1..P)))], desc: json!({"table": t, "row": row, "col": col}) });
                     }
                 }
             }
@@ -920,9 +952,38 @@ fn run_one<C: GenericConfig<D, F = F>>(s: &Scenario, selftest: bool, max_cor: us
         // the designated table of a lookup is the DECLARED one: a pair outside it violates the property even if the
         // builder merged the table with another one (the oracle reads the builder's stored tables)
         let violated = !verdict.satisfied() || bad_pairs > 0;
-        let knob_strats: Vec<&String> = s.strategies.iter().filter(|x| !x.starts_with("ext_") && x.as_str() != "plain").collect();
+        let knob_strats: Vec<&String> = s.strategies.iter().filter(|x| !x.starts_with("ext_") && x.as_str() != "plain" && x.as_str() != "api").collect();
+        if let Some((t, k, v)) = c.api {
+            if !s.strategies.iter().any(|x| x == "api") {
+                continue;
+            }
+            let mut pw = PartialWitness::<F>::new();
+            for t2 in 0..nt {
+                for (k2, e) in s.tables[t2].lookups.iter().enumerate() {
+                    let x = if (t2, k2) == (t, k) { fc(v) } else { F::from_canonical_u16(s.tables[t2].pairs[*e].0) };
+                    pw.set_target(built.ins[t2][k2], x).unwrap();
+                }
+            }
+            let (stage, accepted, detail) = match guarded(|| data.prove(pw)) {
+                Err(p) => ("prove_panic", false, p),
+                Ok(Err(e)) => ("prove_err", false, format!("{e:#}")),
+                Ok(Ok(proof)) => match guarded(|| data.verify(proof)) {
+                    Ok(Ok(())) => ("verify_ok", true, String::new()),
+                    Ok(Err(e)) => ("verify_err", false, format!("{e:#}")),
+                    Err(p) => ("verify_panic", false, p),
+                },
+            };
+            // whatever output the generator found, the looked-up pair has an input that table t does not have
+            out.push(json!({"id": id, "kind": c.kind, "strategy": "api", "violated": true, "bad_pairs": 1, "accepted": accepted,
+                "stage": stage, "detail": detail.chars().take(160).collect::<String>(), "desc": c.desc, "nt": nt,
+                "oracle": {"gate": 0, "copy": 0, "lookup": 0}, "edits": [[a0.idx(built.ins[t][k]), v]], "binding_bits": cfg.binding_bits()}));
+            continue;
+        }
         for st in &s.strategies {
             let is_ext = st.starts_with("ext_");
+            if st == "api" {
+                continue;
+            }
             if c.kind == "none" && !(st == "plain" || st == "ext_plain") {
                 continue;
             }
